@@ -5,6 +5,7 @@ HERE="$(cd "$(dirname "$0")" && pwd)"
 cd "$HERE"
 test -x /venv/bin/python
 test -f /opt/veriftools/tla/tla2tools.jar
+command -v tlapm >/dev/null    # proof system: the proofs in spec/proofs are re-checked by the owning checks
 java -version 2>&1 | head -1
 PYTHONPATH=/repo /venv/bin/python -c "import torch, numpy, scipy, xitorch; print('xitorch', xitorch.__file__)"
 mkdir -p out/work out/replay evidence
